@@ -10,7 +10,8 @@ RULE = ("seeded PointLists over structured dtypes with 1-5 scalar fields of bool
         "PointListArrays of every 2D shape incl. zero extents, ragged / empty / all-empty cells, structured dtypes; written with "
         "to_h5, raw-walked, read with from_h5; per-field (per-cell) tokens of dtype, length and element bytes compared with the "
         "Lean codec and with the direct predicate; extents around block sizes (63-66, 129, 257 rows or columns, points in the last "
-        "cells; PointLists of 64 / 65 / 257 points); non-trivial = >= 2 fields or a ragged array; distinct by recipe hash")
+        "cells; PointLists of 64 / 65 / 257 points); every object also goes through save(path, obj) — the object itself is the "
+        "argument — and read; non-trivial = >= 2 fields or a ragged array; distinct by recipe hash")
 FDT = ["?", "i1", "u1", "i2", "u2", "i4", "u4", "i8", "u8", "f2", "f4", "f8", "c8", "c16", "S1", "S4", ">i4", ">f8"]
 FNAMES = ["x", "y", "qx", "qy", "intensity", "h", "k", "l", "with space", "é", "数据", "data", "dim0", "a.b", "0", "dtype", "name"]
 
